@@ -8,5 +8,7 @@ CONSTANTS
   Targets = {"v1", "v2", "v3"}
   WriteBack = TRUE
   RemovePart = TRUE
+  LockedMerge = TRUE
+  WithPar = TRUE
   MaxOps = 100
   WithFaults = TRUE
